@@ -12,7 +12,7 @@ Import ListNotations.
 From NV Require Import Rec.Lang.
 
 Inductive sbody : Type :=
-| SLeaf (scope : list N) (t : tm)
+| SLeaf (scope : list N) (s : src)
 | SMerge2 (l r : sbody).
 
 Record sfld : Type := { sprio : prio; sval : option sbody; sctrs : list (ckind * sbody) }.
@@ -29,7 +29,7 @@ Definition skeys (R : srec) : list N := map fst R.
 (* [scoped]: a name outside the lexical scope of the literal is not bound by the record *)
 Fixpoint seval_body (look : N -> outcome) (b : sbody) : outcome :=
   match b with
-  | SLeaf scope t => eval_tm (scoped scope look) t
+  | SLeaf scope s => eval_src (scoped scope look) s
   | SMerge2 l r => merge_out (seval_body look l) (seval_body look r)
   end.
 
@@ -85,7 +85,7 @@ Definition smerge (R1 R2 : srec) : srec :=
 Definition sden_lit (l : literal) : srec :=
   map (fun kd => (fst kd, {| sprio := fprio (snd kd);
                              sval := option_map (SLeaf (lit_scope l)) (fbody (snd kd));
-                             sctrs := map (fun c => (fst c, SLeaf (lit_scope l) (snd c))) (fctrs (snd kd)) |})) l.
+                             sctrs := map (fun c => (fst c, SLeaf (lit_scope l) (STm (snd c)))) (fctrs (snd kd)) |})) l.
 
 (* ---- the S-records an override history denotes, one per step ([None]: the step refers to a
    step that does not exist) *)
